@@ -339,20 +339,31 @@ func vfC11ObjectHeaderV2(c *vfC11Ctx) {
 			fclass = "layout-flag-times/"
 		}
 		for n := 0; n <= 6; n++ {
-			for _, tuple := range vfC11SizeTuples(n, []int{0, 1, 7, 8, 9, -1}, 4+c.full) {
-				// -1 = "fill the chunk to exactly the 255-byte limit"
+			tuples := vfC11SizeTuples(n, []int{0, 1, 7, 8, 9, -1}, 4+c.full)
+			if n >= 1 && n <= 2 {
+				// around the limit of the one-byte chunk size: chunks of exactly 253, 254, 256 and
+				// 257 bytes (-1 above fills to 255); the encoder must refuse what it cannot describe
+				for _, marker := range []int{-2, -3, -4, -5} {
+					tuples = append(tuples, vfC11SizeTuples(n, []int{0, 8, marker}, 4+c.full)...)
+				}
+			}
+			for _, tuple := range tuples {
+				// negative = "fill the chunk to exactly N bytes": -1 -> 255 (the limit), -2 -> 256,
+				// -3 -> 254, -4 -> 257, -5 -> 253
 				sizes := append([]int(nil), tuple...)
 				used := 0
 				fills := 0
+				limit := 255
 				for _, s := range sizes {
 					if s >= 0 {
 						used += 4 + s
 					} else {
 						fills++
+						limit = map[int]int{-1: 255, -2: 256, -3: 254, -4: 257, -5: 253}[s]
 					}
 				}
 				if fills > 0 {
-					room := 255 - used - 4*fills
+					room := limit - used - 4*fills
 					if room < 0 {
 						room = 0
 					}
@@ -363,7 +374,7 @@ func vfC11ObjectHeaderV2(c *vfC11Ctx) {
 						}
 						left--
 						if left == 0 {
-							sizes[i] = room // the last filler takes what is left: chunk == 255 exactly
+							sizes[i] = room // the last filler takes what is left: the chunk has exactly the wanted size
 						} else {
 							sizes[i] = room / fills
 							room -= sizes[i]
